@@ -265,10 +265,14 @@ void exec_c15(const Plan& p, Ctx& ctx) {
                     m.type = pr::MessageType::Announce;
                     pr::AnnouncePayload a{};
                     a.chunk_id = make_id(static_cast<std::uint8_t>(v), 0x21); a.peer_id = me.id;
-                    a.endpoint = std::string(sz % 200, 'e') + ":" + std::to_string(v % 60000);
+                    // every variable-length field is empty in some variants (all three at once in 1 of 32)
+                    const auto var = static_cast<std::uint64_t>(op.at(2));
+                    a.endpoint = (var & 1) ? std::string{} : std::string(sz % 200, 'e') + ":" + std::to_string(v % 60000);
                     a.ttl = seconds(static_cast<std::int64_t>(v % 100000));
-                    a.manifest_uri = "eph://" + std::string(sz, 'm') + std::to_string(v);
-                    for (std::size_t i = 0; i < (v % 7); ++i) a.assigned_shards.push_back(static_cast<std::uint8_t>(i + v));
+                    a.manifest_uri = (var & 2) ? std::string{} : "eph://" + std::string(sz, 'm') + std::to_string(v);
+                    const std::size_t shard_count = ((var >> 2) & 7) == 0 ? 0 : ((var >> 2) & 7) == 7 ? 40 : v % 7;
+                    for (std::size_t i = 0; i < shard_count; ++i) a.assigned_shards.push_back(static_cast<std::uint8_t>(i + v));
+                    if (a.endpoint.empty() && a.manifest_uri.empty() && a.assigned_shards.empty()) ctx.boundary("announce_all_variable_fields_empty");
                     a.work_nonce = v * 0x9e3779b97f4a7c15ULL;
                     m.payload = a;
                     break;
